@@ -179,6 +179,40 @@ ApplyGet(m, o, e, obj, step) ==
     R(m, o2, f1, 0)
   ELSE R(m, o2, Ok, 0)
 
+\* explain(): C20.  e.rep maps every variable of the formula to the list of reported closed intervals <<lo, hi>>
+\* (0-based sample indices).  The report must be a sufficient cause of the violation at time 0: every trace that
+\* agrees with the evaluated one on all reported (variable, sample) positions violates the formula at time 0 too.
+\* Re-assigned samples range over representatives of the regions cut out by the constants of the formula.
+Reported(e, v) == UNION {{k + 1 : k \in iv[1]..iv[2]} : iv \in SeqToSet(e.rep[v])}
+ConstsOf(p) == {q.c : q \in {q \in SubF(p) : q.op = "const"}}
+RegionVals(p, W, v, N) == LET cs == ConstsOf(p) \cup {0} IN
+   {c - 1 : c \in cs} \cup cs \cup {c + 1 : c \in cs} \cup {-c : c \in cs} \cup {W[v][k] : k \in 1..N}
+RECURSIVE NodeCount(_)
+NodeCount(p) == IF p.op \in {"var", "const"} THEN 1 ELSE IF p.op \in Un1 THEN 1 + NodeCount(p.l)
+                ELSE 1 + NodeCount(p.l) + NodeCount(p.r)
+RECURSIVE NonConstNodes(_)
+NonConstNodes(p) == IF p.op = "const" THEN 0 ELSE IF p.op = "var" THEN 1 ELSE IF p.op \in Un1 THEN 1 + NonConstNodes(p.l)
+                    ELSE 1 + NonConstNodes(p.l) + NonConstNodes(p.r)
+HasDupName(p) == NonConstNodes(p) > Cardinality({q \in SubF(p) : q.op # "const"})
+ApplyExplain(m, o, e, step) ==
+  LET f0 == ExcClass(TRUE, e, "explain.exc", step)
+      N == Len(m.ts) vs == m.cfg.vars W == m.hist
+      rho1 == m.offOut[1] IN
+  \* "violated at time 0" is rtamt's own notion: negative robustness (explain() does nothing otherwise); robustness 0
+  \* is neither (skipped); iff / xor are outside the fragment in which the sign of the robustness decides satisfaction
+  IF f0 # Ok \/ m.phase # "offline" \/ ~SignApplies(m.phi) \/ SatUndef(m.phi, W, N, m.cfg.S) \/ rho1 = Undef \/ rho1 = 0
+  THEN R(m, o, f0, 0)
+  ELSE IF rho1 > 0 THEN
+       (IF \A v \in vs : Reported(e, v) = {} THEN R(m, o, Ok, 0)
+        ELSE R(m, o, F("explain.reported_for_satisfied", step, "nothing reported", e.rep), 0))
+  ELSE
+    LET Alt == {X \in [vs -> [1..N -> UNION {RegionVals(m.phi, W, v, N) : v \in vs}]] :
+                  \A v \in vs : \A k \in 1..N :
+                     (k \in Reported(e, v) => X[v][k] = W[v][k]) /\ X[v][k] \in RegionVals(m.phi, W, v, N)}
+        badX == {X \in Alt : ~SatUndef(m.phi, X, N, m.cfg.S) /\ Sat(m.phi, X, N, m.cfg.S)[1]} IN
+    IF badX = {} THEN R(m, o, Ok, 0)
+    ELSE R(m, o, F("explain.not_sufficient", step, <<e.rep, W>>, CHOOSE X \in badX : TRUE), 0)
+
 Apply(c, e, step) ==
   LET m == ms[e.o] o == ob[e.o] obj == c.objs[e.o] IN
   IF o.dead THEN R(m, o, Ok, 0) ELSE
@@ -191,6 +225,7 @@ Apply(c, e, step) ==
     [] e.a = "reset"    -> ApplyReset(m, o, e, step)
     [] e.a = "evaluate" -> ApplyEvaluate(m, o, e, step)
     [] e.a = "get"      -> ApplyGet(m, o, e, obj, step)
+    [] e.a = "explain"  -> ApplyExplain(m, o, e, step)
 
 \* relations between the objects of a case, evaluated when all its events are consumed
 RelFail(c, r) ==
@@ -232,7 +267,13 @@ Explained(c, fl) ==
   LET f == fl[1] IN
   \* F-03c: a past operator over a future operand; the value is exactly the one the pastification
   \* scheme as designed (Past!Pastify) produces
-  (IF f.clause = "update.ret" /\ f.pof /\ f.got = f.alt THEN {"F-03c"} ELSE {})
+  (IF f.clause = "update.ret" /\ f.pof /\ f.got = f.alt THEN {"F-03c"} ELSE {}) \cup
+  \* F-20a: explanations are stored per printed name and overwritten: a variable / sub-formula that occurs twice
+  (IF f.clause = "explain.not_sufficient" /\ \E i \in 1..Len(ms) : ms[i].phi.op # "null" /\ HasDupName(ms[i].phi)
+   THEN {"F-20a"} ELSE {}) \cup
+  \* F-20d: rise / fall hand the interval to the operand unchanged (the previous sample is not reported)
+  (IF f.clause = "explain.not_sufficient" /\ \E i \in 1..Len(ms) : ms[i].phi.op # "null" /\ HasOp(ms[i].phi, {"rise", "fall"})
+   THEN {"F-20d"} ELSE {})
 
 Verdict(c, fl) ==
   [tid |-> c.tid, ok |-> fl = Ok,
